@@ -308,6 +308,19 @@ def run_sequence(env, sink, cash, cfg, seq):
                 msgs.append("transaction_costs() frame row %d differs from the entry" % k)
         if len(f_pre) != len(tr):
             msgs.append("frames have %d rows for %d entries" % (len(f_pre), len(tr)))
+        # the weight tables (stored as float32): pre-trade, post-trade and target weights of every entry
+        for nm, frame, pick in (("weights_actual(before_rebalancing=True)", tr.weights_actual(before_rebalancing=True), lambda e: e.context_pre.weights),
+                                ("weights_actual(before_rebalancing=False)", tr.weights_actual(before_rebalancing=False), lambda e: e.context_post.weights),
+                                ("weights_target()", tr.weights_target(), lambda e: e.allocation)):
+            if len(frame) != len(tr):
+                msgs.append("%s has %d rows for %d entries" % (nm, len(frame), len(tr)))
+                continue
+            for k in range(len(tr)):
+                for c, w in pick(tr[k]).items():
+                    got = frame.iloc[k][c] if c in frame.columns else float("nan")
+                    if not (abs(float(got) - float(w)) <= 1e-5 * max(1.0, abs(float(w)))):
+                        msgs.append("%s row %d reports %r for %s, the entry holds %r" % (nm, k, float(got), c, float(w)))
+                        break
         # burn=True discards the INITIAL entries without trades (cash-only start) and nothing else
         lead = 0
         while lead < len(tr) and not tr[lead].trades:
